@@ -212,14 +212,27 @@ def statements(ctx, budget, tier, only, depth, maxdepth):
             yield lines, c5._replace(cur=c2.cur, loop=ctx.loop), (form.name,) + forms, 1 + used
 
 
-def render(lines, flags, tail=True):
+SIGNATURES = {
+    # name -> (parameter list, docstring?)   (how they are called: progspace.call_args)
+    "rich": ("x, /, y=2, *rest, k=3, **kw", False),
+    "kwonly": ("x, *, k=3", False),
+    "doc": ("x", True),
+}
+
+
+def render(lines, flags, tail=True, sig=None):
     params = ["x"]
     if "o" in flags:
         params.append("o")
     if "d" in flags:
         params.append("d")
     body = ["    " + ln for ln in lines] + (["    return E(99, SNAP(locals()))"] if tail else [])
-    fn = [f"def f({', '.join(params)}):"] + body
+    plist = ", ".join(params)
+    if sig:
+        plist, doc = SIGNATURES[sig]
+        if doc:
+            body = ['    """A docstring, which ptera keeps outside the instrumented block."""'] + body
+    fn = [f"def f({plist}):"] + body
     if "closure" in flags:
         src = "def make(c):\n" + "\n".join("    " + ln for ln in fn) + "\n    return f\nf = make(10)\n"
     else:
@@ -227,12 +240,18 @@ def render(lines, flags, tail=True):
     return src
 
 
-def programs(size, tier, only=None, maxdepth=2, must=None, tails=(True,)):
+def programs(size, tier, only=None, maxdepth=2, must=None, tails=(True,), sigs=(None,)):
     """Every program with 1..size nodes.  `only`: restrict the menu; `must`: a form that has to occur;
-    tails: with the final `return E(99, SNAP(locals()))` (True) and/or falling off the end (False)."""
+    tails: with the final `return E(99, SNAP(locals()))` (True) and/or falling off the end (False);
+    sigs: signature variants (None = plain `def f(x)`), only for programs without the o/d arguments."""
     ctx0 = Ctx(0, 0, "x", frozenset(), False)
     for lines, ctx, forms, used in blocks(ctx0, size, tier, only, 0, maxdepth):
         if must is not None and not (set(forms) & must):
             continue
         for tail in tails:
-            yield Prog(render(lines, ctx.flags, tail), forms if tail else forms + ("fall-off-end",), ctx.flags, used)
+            for sig in sigs:
+                if sig and (ctx.flags & {"o", "d"}):
+                    continue
+                fl = ctx.flags | ({"sig:" + sig} if sig else set())
+                fm = forms + (() if tail else ("fall-off-end",)) + (("sig-" + sig,) if sig else ())
+                yield Prog(render(lines, ctx.flags, tail, sig), fm, frozenset(fl), used)
